@@ -40,6 +40,15 @@ func newShip2(x *Ctx, o ship2Opts) *ship2 {
 	cl, sv := x.Net.Pipe("A", "B")
 	s.A = &ship2End{name: "A", nc: cl, ready: make(chan struct{}), local: "SHIPID-A", prov: &stubProvider{x: x, name: "A", paired: true, allowWaiting: true}}
 	s.B = &ship2End{name: "B", nc: sv, ready: make(chan struct{}), local: "SHIPID-B", prov: &stubProvider{x: x, name: "B", allowWaiting: true}}
+	// the hub creates the connection (its reader starts at once), registers it,
+	// tells the application and only then calls Run(): the peer's first message
+	// may arrive before Run()
+	late := map[string]time.Duration{}
+	if x.Feat(FeatLateRun) {
+		gaps := []time.Duration{0, 0, 0, time.Millisecond, 50 * time.Millisecond, 2 * time.Second}
+		late["A"] = gaps[x.Choose("late-run-A", len(gaps))]
+		late["B"] = gaps[x.Choose("late-run-B", len(gaps))]
+	}
 	start := func(e *ship2End, client bool, peerSki, stored string) {
 		x.Go(e.name+":setup", func() {
 			var err error
@@ -72,6 +81,10 @@ func newShip2(x *Ctx, o ship2Opts) *ship2 {
 			}
 			e.conn = ship.NewConnectionHandler(e.prov, dw, role, e.local, peerSki, stored)
 			close(e.ready)
+			if d := late[e.name]; d > 0 {
+				x.Probe("run-delayed-after-creation")
+				simrt.Sleep(d)
+			}
 			e.conn.Run()
 		})
 	}
